@@ -331,8 +331,6 @@ def run(ctx):
         else:
             cs = []
             for c in cases:
-                if c.get('astral'):
-                    continue                                   # JS strings are UTF-16: stay in the BMP there
                 ms = [m for m in c['modes'] if m[0] == 'direct']
                 if ms:
                     cs.append(dict(c, modes=ms))
